@@ -139,11 +139,31 @@ syntax "sat_atom" : tactic
 /-- one structural step -/
 syntax "sat_step" : tactic
 
-/-- what the bodies may assume of the previous fuel level at the depths they call -/
-structure Good (n : Nat) (af : Bool) (P : Fns) (lo : Nat) : Prop where
+/-- `Incs.ok` as a proposition `omega` can use -/
+def Incs.Facts (I : Incs) : Prop :=
+  1 ≤ I.arrElem ∧ 1 ≤ I.tupElem ∧ 1 ≤ I.structProto ∧ 1 ≤ I.structKey ∧ 1 ≤ I.structVal ∧ 1 ≤ I.tabProto ∧ 1 ≤ I.tabKey ∧
+  1 ≤ I.tabVal ∧ 1 ≤ I.oneDef ∧ 1 ≤ I.oneEnv + I.envFiber ∧ 1 ≤ I.oneEnv + I.envValue ∧ 1 ≤ I.oneFiber + I.fbFrameFn ∧
+  1 ≤ I.oneFiber + I.fbSlot ∧ 1 ≤ I.oneFiber + I.fbEnv ∧ 1 ≤ I.oneFiber + I.fbChild ∧ 1 ≤ I.oneFiber + I.fbLast ∧
+  1 ≤ I.oneFiber + I.fbFrameEnv + I.envFiber ∧ 1 ≤ I.oneFiber + I.fbFrameEnv + I.envValue ∧ 1 ≤ I.oneAbstract + I.absKey ∧
+  1 ≤ I.oneAbstract + I.absCtx + I.hookJanet ∧ 1 ≤ I.defName ∧ 1 ≤ I.defSource ∧ 1 ≤ I.defConst ∧ 1 ≤ I.defSym ∧ 1 ≤ I.defSub
+
+theorem Incs.facts_of_ok {I : Incs} (h : I.ok = true) : I.Facts := by
+  unfold Incs.ok at h
+  simp only [Bool.and_eq_true, decide_eq_true_eq] at h
+  unfold Incs.Facts
+  omega
+
+/-- what the bodies may assume of the previous fuel level at the depths they call (`env` passes its depth on to `one` with
+    the two increments of `unmarshal_one_env`) -/
+structure Good (C : Cfg) (n : Nat) (af : Bool) (P : Fns) (lo : Nat) : Prop where
   one : ∀ d', lo ≤ d' → ∀ p r, SatAt n af p r 1 (P.one d')
   def_ : ∀ d', lo ≤ d' → ∀ p r, SatAt n af p r 1 (P.def_ d')
-  env : ∀ d', lo ≤ d' → ∀ p r, SatAt n af p r 1 (P.env d')
+  env : ∀ d', lo ≤ d' + C.inc.envFiber → lo ≤ d' + C.inc.envValue → ∀ p r, SatAt n af p r 1 (P.env d')
+
+/-- what a body running inside the checked function at depth `d0` knows about the depths it may call at: either nothing is
+    demanded (`lo = 0`; the in-bounds theorem holds at every depth and needs no fact about the increments), or the callee
+    must be strictly deeper than `d0` and every call path adds at least 1 (`Incs.ok`) -/
+def DepthOk (C : Cfg) (lo d0 : Nat) : Prop := lo = 0 ∨ (lo = d0 + 1 ∧ C.inc.Facts)
 
 macro_rules
   | `(tactic| sat_atom) => `(tactic| first
@@ -162,9 +182,9 @@ macro_rules
       | exact sat_weaken (sat_oneInt (r := 0) ‹Sites.ok _ = true›) (Nat.le_refl _) (by omega) (by omega)
       | exact sat_weaken (sat_oneReal (r := 0) ‹Sites.ok _ = true›) (Nat.le_refl _) (by omega) (by omega)
       | exact sat_payload_one ‹Sites.ok _ = true›
-      | exact sat_weaken ((‹Good _ _ _ _›).one _ (by omega) _ 0) (Nat.le_refl _) (by omega) (by omega)
-      | exact sat_weaken ((‹Good _ _ _ _›).def_ _ (by omega) _ 0) (Nat.le_refl _) (by omega) (by omega)
-      | exact sat_weaken ((‹Good _ _ _ _›).env _ (by omega) _ 0) (Nat.le_refl _) (by omega) (by omega))
+      | exact sat_weaken ((‹Good _ _ _ _ _›).one _ (by omega) _ 0) (Nat.le_refl _) (by omega) (by omega)
+      | exact sat_weaken ((‹Good _ _ _ _ _›).def_ _ (by omega) _ 0) (Nat.le_refl _) (by omega) (by omega)
+      | exact sat_weaken ((‹Good _ _ _ _ _›).env _ (by omega) (by omega) _ 0) (Nat.le_refl _) (by omega) (by omega))
 
 macro_rules
   | `(tactic| sat_step) => `(tactic| first
@@ -181,13 +201,15 @@ variable {C : Cfg} (hS : C.sites.ok = true) (hR1 : C.refChecked = true) (hR2 : C
   (hR3 : C.defRefChecked = true) {P : Fns}
 include hS
 
-theorem sat_symEntry {lo dd : Nat} (hP : Good b.size af P lo) (hd : lo ≤ dd + 1) :
+theorem sat_symEntry {lo dd : Nat} (hP : Good C b.size af P lo) (hD : DepthOk C lo dd) :
     SatAt b.size af p r 0 (symEntry C b P dd) := by
+  unfold DepthOk Incs.Facts at hD
   unfold symEntry
   repeat' sat_step
 
 include hR2 in
-theorem sat_envBody {dd : Nat} (hone : ∀ p r, SatAt b.size af p r 1 (P.one dd)) :
+theorem sat_envBody {dd : Nat} (hone : ∀ p r, SatAt b.size af p r 1 (P.one (dd + C.inc.envFiber)))
+    (hone2 : ∀ p r, SatAt b.size af p r 1 (P.one (dd + C.inc.envValue))) :
     SatAt b.size af p r 1 (envBody C b P dd) := by
   obtain ⟨_, _, _, _, _, h6, _⟩ := sites_facts hS
   unfold envBody
@@ -195,26 +217,28 @@ theorem sat_envBody {dd : Nat} (hone : ∀ p r, SatAt b.size af p r 1 (P.one dd)
   split
   · repeat' sat_step
   · refine sat_bind0 sat_modSt (fun _ => ?_)
-    repeat' (first | exact sat_weaken (hone _ 0) (Nat.le_refl _) (by omega) (by omega) | sat_step)
+    repeat' (first | exact sat_weaken (hone _ 0) (Nat.le_refl _) (by omega) (by omega)
+                   | exact sat_weaken (hone2 _ 0) (Nat.le_refl _) (by omega) (by omega) | sat_step)
 
 include hR3 in
-theorem sat_defBody {dd : Nat} (hP : C.guardDepth < dd ∨ Good b.size af P (dd + 1)) :
+theorem sat_defBody {dd : Nat} (hP : C.guardDepth < dd ∨ ∃ lo, Good C b.size af P lo ∧ DepthOk C lo dd) :
     SatAt b.size af p r 1 (defBody C b P dd) := by
   obtain ⟨_, _, _, _, _, _, _, h8, _⟩ := sites_facts hS
   unfold defBody
   refine sat_ite (fun _ => sat_fail) (fun hdd => ?_)
-  · have hP : Good b.size af P (dd + 1) := hP.resolve_left hdd
+  · obtain ⟨lo, hP, hD⟩ := hP.resolve_left hdd
+    have hsym : ∀ p' r', SatAt b.size af p' r' 0 (symEntry C b P dd) := fun _ _ => sat_symEntry hS hP hD
+    unfold DepthOk Incs.Facts at hD
     refine sat_peek_bind h8 (fun l => ?_)
     refine sat_ite (fun _ => ?_) (fun _ => ?_)
     · repeat' sat_step
     · refine sat_bind0 sat_getSt (fun s0 => sat_bind0 sat_modSt (fun _ => ?_))
       unfold optNat
-      have hsym : ∀ p' r', SatAt b.size af p' r' 0 (symEntry C b P dd) := fun _ _ => sat_symEntry hS hP (Nat.le_refl _)
       repeat' (first | exact hsym _ _ | sat_step)
 
-theorem sat_frameLoop {dd frame : Nat} (hP : Good b.size af P (dd + 1)) :
+theorem sat_frameLoop {lo d0 frame : Nat} (hP : Good C b.size af P lo) (hD : DepthOk C lo d0) :
     ∀ (k p stack : Nat) (stacktop : Int) (top : Option TopFrame), (af = false → b.size < p + k) →
-      SatAt b.size af p 0 0 (frameLoop C b P dd frame k stack stacktop top)
+      SatAt b.size af p 0 0 (frameLoop C b P (d0 + C.inc.oneFiber) frame k stack stacktop top)
   | 0, p, _, _, _, hk => by
     refine ⟨fun c hp hn => ?_⟩
     show af = true
@@ -226,37 +250,49 @@ theorem sat_frameLoop {dd frame : Nat} (hP : Good b.size af P (dd + 1)) :
     split
     · exact sat_pure
     · refine sat_bind1' (sat_readint hS) (fun _ => ?_)
-      have ih' : ∀ st stt tp, SatAt b.size af (p + 1) 0 0 (frameLoop C b P dd frame k st stt tp) :=
-        fun st stt tp => sat_frameLoop hP k (p + 1) st stt tp (by intro h; have := hk h; omega)
+      have ih' : ∀ st stt tp, SatAt b.size af (p + 1) 0 0 (frameLoop C b P (d0 + C.inc.oneFiber) frame k st stt tp) :=
+        fun st stt tp => sat_frameLoop hP hD k (p + 1) st stt tp (by intro h; have := hk h; omega)
+      unfold DepthOk Incs.Facts at hD
       repeat' (first | exact ih' _ _ _ | sat_step)
 
-theorem sat_fiberBody {dd : Nat} (hP : Good b.size af P (dd + 1)) : SatAt b.size af p r 1 (fiberBody C b P dd) := by
-  have hfl : ∀ p' fr st stt tp, SatAt b.size af p' 0 0 (frameLoop C b P dd fr (b.size + 1) st stt tp) :=
-    fun p' fr st stt tp => sat_frameLoop hS hP (b.size + 1) p' st stt tp (by intro _; omega)
+theorem sat_fiberBody {lo d0 : Nat} (hP : Good C b.size af P lo) (hD : DepthOk C lo d0) :
+    SatAt b.size af p r 1 (fiberBody C b P (d0 + C.inc.oneFiber)) := by
+  have hfl : ∀ p' fr st stt tp, SatAt b.size af p' 0 0 (frameLoop C b P (d0 + C.inc.oneFiber) fr (b.size + 1) st stt tp) :=
+    fun p' fr st stt tp => sat_frameLoop hS hP hD (b.size + 1) p' st stt tp (by intro _; omega)
+  unfold DepthOk Incs.Facts at hD
   unfold fiberBody
   repeat' (first | exact hfl _ _ _ _ _ | sat_step)
 
-theorem sat_functionBody {dd : Nat} (hP : Good b.size af P (dd + 1)) : SatAt b.size af p r 1 (functionBody C b P dd) := by
+theorem sat_functionBody {lo dd : Nat} (hP : Good C b.size af P lo) (hD : DepthOk C lo dd) :
+    SatAt b.size af p r 1 (functionBody C b P dd) := by
+  unfold DepthOk Incs.Facts at hD
   unfold functionBody
   repeat' sat_step
 
-theorem sat_pegBody {dd : Nat} (hP : Good b.size af P (dd + 1)) : SatAt b.size af p r 0 (pegBody C b P dd) := by
+theorem sat_pegBody {lo d0 : Nat} (hP : Good C b.size af P lo) (hD : DepthOk C lo d0) :
+    SatAt b.size af p r 0 (pegBody C b P (d0 + C.inc.oneAbstract)) := by
+  unfold DepthOk Incs.Facts at hD
   unfold pegBody
   repeat' sat_step
 
-theorem sat_chanBody {dd : Nat} (hP : Good b.size af P (dd + 1)) : SatAt b.size af p r 0 (chanBody C b P dd) := by
+theorem sat_chanBody {lo d0 : Nat} (hP : Good C b.size af P lo) (hD : DepthOk C lo d0) :
+    SatAt b.size af p r 0 (chanBody C b P (d0 + C.inc.oneAbstract)) := by
+  unfold DepthOk Incs.Facts at hD
   unfold chanBody
   repeat' sat_step
 
-theorem sat_abstractBody {dd : Nat} (hP : Good b.size af P (dd + 1)) : SatAt b.size af p r 1 (abstractBody C b P dd) := by
-  have hpeg : ∀ p' r', SatAt b.size af p' r' 0 (pegBody C b P dd) := fun _ _ => sat_pegBody hS hP
-  have hchan : ∀ p' r', SatAt b.size af p' r' 0 (chanBody C b P dd) := fun _ _ => sat_chanBody hS hP
+theorem sat_abstractBody {lo d0 : Nat} (hP : Good C b.size af P lo) (hD : DepthOk C lo d0) :
+    SatAt b.size af p r 1 (abstractBody C b P (d0 + C.inc.oneAbstract)) := by
+  have hpeg : ∀ p' r', SatAt b.size af p' r' 0 (pegBody C b P (d0 + C.inc.oneAbstract)) := fun _ _ => sat_pegBody hS hP hD
+  have hchan : ∀ p' r', SatAt b.size af p' r' 0 (chanBody C b P (d0 + C.inc.oneAbstract)) := fun _ _ => sat_chanBody hS hP hD
+  unfold DepthOk Incs.Facts at hD
   unfold abstractBody
   repeat' (first | exact hpeg _ _ | exact hchan _ _ | sat_step)
 
 include hR1 in
-theorem sat_containerBody {dd lead : Nat} (hP : Good b.size af P (dd + 1)) :
+theorem sat_containerBody {lo dd lead : Nat} (hP : Good C b.size af P lo) (hD : DepthOk C lo dd) :
     SatAt b.size af p r 1 (containerBody C b P dd lead) := by
+  unfold DepthOk Incs.Facts at hD
   unfold containerBody
   repeat' sat_step
 
@@ -265,21 +301,20 @@ theorem sat_bytesBody {lead : Nat} : SatAt b.size af p r 1 (bytesBody C b lead) 
   repeat' sat_step
 
 include hR1 in
-theorem sat_oneBody {dd : Nat} (hP : C.guardDepth < dd ∨ Good b.size af P (dd + 1)) :
+theorem sat_oneBody {dd : Nat} (hP : C.guardDepth < dd ∨ ∃ lo, Good C b.size af P lo ∧ DepthOk C lo dd) :
     SatAt b.size af p r 1 (oneBody C b P dd) := by
   obtain ⟨_, _, _, _, _, _, _, _, h9, _⟩ := sites_facts hS
   unfold oneBody
   refine sat_ite (fun _ => sat_fail) (fun hdd => ?_)
-  · have hP : Good b.size af P (dd + 1) := hP.resolve_left hdd
-    have hP2 : Good b.size af P (dd + 1 + 1) := ⟨fun d' h => hP.one d' (by omega), fun d' h => hP.def_ d' (by omega), fun d' h => hP.env d' (by omega)⟩
-    have hfib : ∀ p', SatAt b.size af p' 0 0 (fiberBody C b P (dd + 1)) :=
-      fun _ => sat_weaken (sat_fiberBody hS hP2 (r := 0)) (Nat.le_refl _) (Nat.le_refl _) (by omega)
+  · obtain ⟨lo, hP, hD⟩ := hP.resolve_left hdd
+    have hfib : ∀ p', SatAt b.size af p' 0 0 (fiberBody C b P (dd + C.inc.oneFiber)) :=
+      fun _ => sat_weaken (sat_fiberBody hS hP hD (r := 0)) (Nat.le_refl _) (Nat.le_refl _) (by omega)
     have hfun : ∀ p', SatAt b.size af p' 0 0 (functionBody C b P dd) :=
-      fun _ => sat_weaken (sat_functionBody hS hP (r := 0)) (Nat.le_refl _) (Nat.le_refl _) (by omega)
-    have habs : ∀ p', SatAt b.size af p' 0 0 (abstractBody C b P dd) :=
-      fun _ => sat_weaken (sat_abstractBody hS hP (r := 0)) (Nat.le_refl _) (Nat.le_refl _) (by omega)
+      fun _ => sat_weaken (sat_functionBody hS hP hD (r := 0)) (Nat.le_refl _) (Nat.le_refl _) (by omega)
+    have habs : ∀ p', SatAt b.size af p' 0 0 (abstractBody C b P (dd + C.inc.oneAbstract)) :=
+      fun _ => sat_weaken (sat_abstractBody hS hP hD (r := 0)) (Nat.le_refl _) (Nat.le_refl _) (by omega)
     have hcon : ∀ p' l, SatAt b.size af p' 0 0 (containerBody C b P dd l) :=
-      fun _ _ => sat_weaken (sat_containerBody hS hR1 hP (r := 0)) (Nat.le_refl _) (Nat.le_refl _) (by omega)
+      fun _ _ => sat_weaken (sat_containerBody hS hR1 hP hD (r := 0)) (Nat.le_refl _) (Nat.le_refl _) (by omega)
     have hbyt : ∀ p' l, SatAt b.size af p' 0 0 (bytesBody C b l) :=
       fun _ _ => sat_weaken (sat_bytesBody hS (r := 0)) (Nat.le_refl _) (Nat.le_refl _) (by omega)
     refine sat_peek_bind h9 (fun lead => ?_)
@@ -292,10 +327,12 @@ end bodies
 /-- fuel that suffices for `one` / `def` at recursion depth `d` (`env` needs one more) -/
 def mu (G d : Nat) : Nat := 2 * (G + 2 - d) + 1
 
-theorem fns_sat {C : Cfg} (hS : C.sites.ok = true) (hR : C.refsChecked = true) (b : Array Nat) (af : Bool) : ∀ (f : Nat),
+theorem fns_sat {C : Cfg} (hS : C.sites.ok = true) (hR : C.refsChecked = true) (b : Array Nat) (af : Bool)
+    (hI : af = false → C.inc.ok = true) : ∀ (f : Nat),
     (∀ d, (af = false → mu C.guardDepth d ≤ f) → ∀ p r, SatAt b.size af p r 1 ((fns C b f).one d)) ∧
     (∀ d, (af = false → mu C.guardDepth d ≤ f) → ∀ p r, SatAt b.size af p r 1 ((fns C b f).def_ d)) ∧
-    (∀ d, (af = false → mu C.guardDepth d + 1 ≤ f) → ∀ p r, SatAt b.size af p r 1 ((fns C b f).env d))
+    (∀ d, (af = false → mu C.guardDepth (d + C.inc.envFiber) + 1 ≤ f ∧ mu C.guardDepth (d + C.inc.envValue) + 1 ≤ f) →
+      ∀ p r, SatAt b.size af p r 1 ((fns C b f).env d))
   | 0 => by
     have haf : ∀ k : Nat, (af = false → k + 1 ≤ 0) → af = true := by
       intro k h; cases af with
@@ -304,17 +341,29 @@ theorem fns_sat {C : Cfg} (hS : C.sites.ok = true) (hR : C.refsChecked = true) (
     refine ⟨fun d h p r => ?_, fun d h p r => ?_, fun d h p r => ?_⟩
     · exact sat_outOfFuel (haf _ (by unfold mu at h; exact h))
     · exact sat_outOfFuel (haf _ (by unfold mu at h; exact h))
-    · exact sat_outOfFuel (haf _ h)
+    · exact sat_outOfFuel (haf _ (fun x => (h x).1))
   | f + 1 => by
-    obtain ⟨ih1, ih2, ih3⟩ := fns_sat hS hR b af f
+    obtain ⟨ih1, ih2, ih3⟩ := fns_sat hS hR b af hI f
     have hR' := hR
     unfold Cfg.refsChecked at hR'
     simp only [Bool.and_eq_true] at hR'
     obtain ⟨⟨hR1, hR2⟩, hR3⟩ := hR'
-    have good : ∀ d, d ≤ C.guardDepth → (af = false → mu C.guardDepth d ≤ f + 1) → Good b.size af (fns C b f) (d + 1) := by
+    have good : ∀ d, d ≤ C.guardDepth → (af = false → mu C.guardDepth d ≤ f + 1) →
+        ∃ lo, Good C b.size af (fns C b f) lo ∧ DepthOk C lo d := by
       intro d hd h
-      refine ⟨fun d' hd' => ih1 d' ?_, fun d' hd' => ih2 d' ?_, fun d' hd' => ih3 d' ?_⟩ <;>
-        (intro haf; have := h haf; unfold mu at this ⊢; omega)
+      cases haf : af with
+      | true =>
+        subst haf
+        exact ⟨0, ⟨fun d' _ => ih1 d' (by intro x; cases x), fun d' _ => ih2 d' (by intro x; cases x),
+                   fun d' _ _ => ih3 d' (by intro x; cases x)⟩, Or.inl rfl⟩
+      | false =>
+        subst haf
+        have hm := h rfl
+        refine ⟨d + 1, ⟨fun d' hd' => ih1 d' ?_, fun d' hd' => ih2 d' ?_, fun d' h1 h2 => ih3 d' ?_⟩,
+                Or.inr ⟨rfl, Incs.facts_of_ok (hI rfl)⟩⟩
+        · intro _; unfold mu at hm ⊢; omega
+        · intro _; unfold mu at hm ⊢; omega
+        · intro _; unfold mu at hm ⊢; omega
     refine ⟨fun d h p r => ?_, fun d h p r => ?_, fun d h p r => ?_⟩
     · show SatAt b.size af p r 1 (oneBody C b (fns C b f) d)
       by_cases hd : C.guardDepth < d
@@ -325,7 +374,8 @@ theorem fns_sat {C : Cfg} (hS : C.sites.ok = true) (hR : C.refsChecked = true) (
       · exact sat_defBody hS hR3 (Or.inl hd)
       · exact sat_defBody hS hR3 (Or.inr (good d (by omega) h))
     · show SatAt b.size af p r 1 (envBody C b (fns C b f) d)
-      exact sat_envBody hS hR2 (fun p' r' => ih1 d (by intro haf; have := h haf; omega) p' r')
+      exact sat_envBody hS hR2 (fun p' r' => ih1 _ (by intro haf; have := (h haf).1; omega) p' r')
+        (fun p' r' => ih1 _ (by intro haf; have := (h haf).2; omega) p' r')
 
 /-- **unmarshal_total_inbounds**: for EVERY byte array and every fuel, when each extracted `MARSH_EOS` offset dominates the
     reads made under it and the three reference-table indices are tested, the byte-level model never reads at an index outside
@@ -336,7 +386,7 @@ theorem unmarshal_total_inbounds_generic (C : Cfg) (hS : C.sites.ok = true) (hR 
     | .oob _ => False
     | .ok _ c => 0 < c.pos ∧ c.pos ≤ b.size
     | _ => True := by
-  have h := ((fns_sat hS hR b true fuel).1 0 (by intro h; cases h) 0 0).run { pos := 0, st := {} } (Nat.le_refl _) (by simp)
+  have h := ((fns_sat hS hR b true (by intro h; cases h) fuel).1 0 (by intro h; cases h) 0 0).run { pos := 0, st := {} } (Nat.le_refl _) (by simp)
   unfold unmarshal
   cases hr : (fns C b fuel).one 0 { pos := 0, st := {} } with
   | ok a c => rw [hr] at h; exact ⟨by have := h.1; simp at this; omega, h.2⟩
@@ -344,12 +394,15 @@ theorem unmarshal_total_inbounds_generic (C : Cfg) (hS : C.sites.ok = true) (hR 
   | oob s => rw [hr] at h; exact h
   | fuel => trivial
 
-/-- **unmarshal_terminates**: `fuelBound` levels of recursion are enough for every input — the recursion depth of the C is
-    bounded by `JANET_RECURSION_GUARD`, every loop of the model is a bounded `for`, and the frame loop of
-    `unmarshal_one_fiber` consumes input on every iteration. -/
-theorem unmarshal_terminates_generic (C : Cfg) (hS : C.sites.ok = true) (hR : C.refsChecked = true) (b : Array Nat) (fuel : Nat)
+/-- **unmarshal_terminates**: `fuelBound` levels of recursion are enough for every input — when every call path from one
+    `MARSH_STACKCHECK` to the next adds at least 1 to the depth counter (`Incs.ok` over the `flags + k` arguments extracted
+    from marsh.c) the recursion depth of the C is bounded by `JANET_RECURSION_GUARD`: at most `guard + 2` nested activations
+    of the checked functions, at most one unchecked `unmarshal_one_env` between two of them.  Every loop of the model is a
+    bounded `for`, and the frame loop of `unmarshal_one_fiber` consumes input on every iteration. -/
+theorem unmarshal_terminates_generic (C : Cfg) (hS : C.sites.ok = true) (hR : C.refsChecked = true) (hI : C.inc.ok = true)
+    (b : Array Nat) (fuel : Nat)
     (hf : fuelBound C ≤ fuel) : ∀ a, unmarshal C b fuel ≠ .fuel ∧ unmarshal C b fuel ≠ .oob a := by
-  have h := ((fns_sat hS hR b false fuel).1 0 (by intro _; unfold mu; unfold fuelBound at hf; omega) 0 0).run
+  have h := ((fns_sat hS hR b false (fun _ => hI) fuel).1 0 (by intro _; unfold mu; unfold fuelBound at hf; omega) 0 0).run
     { pos := 0, st := {} } (Nat.le_refl _) (by simp)
   unfold unmarshal
   intro a
